@@ -3,6 +3,7 @@ package bufsim
 import (
 	"bytes"
 	"fmt"
+	"github.com/vulcand/oxy/v2/utils"
 	"net/http"
 	"os"
 	"runtime"
@@ -68,8 +69,8 @@ func drawMax(rt *rapid.T, label string, mem int) int {
 // kinds of violation each property reports
 var kindsOf = map[string]map[string]bool{
 	"C06": {"request-altered": true, "body-altered": true, "length-undeclared": true, "chunked-forwarded": true, "handler-after-read-fault": true, "no-error-after-read-fault": true},
-	"C07": {"invocation-count": true, "status": true, "headers": true, "body": true, "discarded-attempt-leaked": true, "client-writer-misuse": true, "empty-body-not-empty": true},
-	"C15": {"request-over-limit-passed": true, "request-limit-status": true, "response-over-limit-leaked": true, "response-limit-status": true, "temp-file-left": true, "spurious-limit": true},
+	"C07": {"invocation-count": true, "status": true, "headers": true, "body": true, "discarded-attempt-leaked": true, "client-writer-misuse": true, "empty-body-not-empty": true, "error-handler-twice": true},
+	"C15": {"request-over-limit-passed": true, "request-limit-status": true, "response-over-limit-leaked": true, "response-limit-status": true, "temp-file-left": true, "spurious-limit": true, "error-handler-bypassed": true},
 }
 
 func bufprop(r *simkit.Run, prop string) {
@@ -95,6 +96,15 @@ func bufprop(r *simkit.Run, prop string) {
 		buffer.MemResponseBodyBytes(int64(cfg.memResp)), buffer.MaxResponseBodyBytes(int64(cfg.maxResp))}
 	if cfg.retry != nil {
 		opts = append(opts, buffer.Retry(cfg.retry.render(false)))
+	}
+	// by draw the buffer is built with the caller's own error handler (the default mapping plus a mark on the
+	// response: the configured handler, and not the built-in one, answers whenever the buffer refuses) and is verbose
+	ownHandler := rapid.IntRange(0, 2).Draw(rt, "own-error-handler") == 0
+	if ownHandler {
+		opts = append(opts, buffer.ErrorHandler(utils.ErrorHandlerFunc(func(w http.ResponseWriter, req *http.Request, err error) {
+			w.Header().Add("X-Own-Err-Handler", "1")
+			(&buffer.SizeErrHandler{}).ServeHTTP(w, req, err)
+		})), buffer.Verbose(rapid.Bool().Draw(rt, "verbose")))
 	}
 	fails := map[string]string{}
 	note := func(kind, format string, args ...any) {
@@ -292,6 +302,9 @@ func bufprop(r *simkit.Run, prop string) {
 			if ex.rec.Status != http.StatusRequestEntityTooLarge && !diskFaultHit && !(ex.cancelled && ex.rec.Status == 499) {
 				note("request-limit-status", "%s: request body exceeds the maximum %d, answered %d instead of 413", where, cfg.maxReq, ex.rec.Status)
 			}
+			if n := len(ex.rec.Snapshot.Values("X-Own-Err-Handler")); ownHandler && n != 1 {
+				note("error-handler-bypassed", "%s: request body exceeds the maximum %d (status %d): the configured error handler answered %d times", where, cfg.maxReq, ex.rec.Status, n)
+			}
 			continue
 		}
 		if readerFaultHit {
@@ -380,12 +393,19 @@ func bufprop(r *simkit.Run, prop string) {
 		if ex.rec.WriteHeaders != 1 {
 			note("client-writer-misuse", "%s: WriteHeader reached the client %d times", where, ex.rec.WriteHeaders)
 		}
+		ownMarks := len(ex.rec.Snapshot.Values("X-Own-Err-Handler"))
+		if ownMarks > 1 {
+			note("error-handler-twice", "%s: the configured error handler answered %d times (status %d)", where, ownMarks, ex.rec.Status)
+		}
 		body := ex.rec.Body.Bytes()
 		if respOver || respDisk {
 			lastOver := cfg.maxResp > 0 && final.bodyLen() > cfg.maxResp
 			if lastOver {
 				if ex.rec.Status < 400 {
 					note("response-limit-status", "%s: the response body (%d bytes) exceeds the maximum %d, the client got status %d", where, final.bodyLen(), cfg.maxResp, ex.rec.Status)
+				}
+				if ownHandler && ownMarks != 1 {
+					note("error-handler-bypassed", "%s: the response body (%d bytes) exceeds the maximum %d (status %d): the configured error handler answered %d times", where, final.bodyLen(), cfg.maxResp, ex.rec.Status, ownMarks)
 				}
 				for a := range ex.seen {
 					if bytes.IndexByte(body, respByte(a)) >= 0 && bytes.Count(body, []byte{respByte(a)}) > 8 {
